@@ -148,6 +148,15 @@ def run_impl(case):
                     res.simulate(np.linspace(0.0, 0.3, 5))
                     res.recovery_factor()
                     res.nx, res.pressure_fracface, res.pressure_initial = nx_arg, case["pf"], case["pi"]
+                elif case.get("law"):
+                    # a user subclass that overrides the documented hook `alpha_scaled` with a pressure-dependent law and inherits
+                    # `simulate`: every step must consult the override at the previous level (model: ReservoirUser.idu_simulate)
+                    a0_, a1_ = case["law"]
+
+                    class UserLawReservoir(IdealReservoir):
+                        def alpha_scaled(self, pseudopressure):
+                            return a0_ + a1_ * pseudopressure
+                    res = UserLawReservoir(nx_arg, case["pf"], case["pi"], None)
                 else:
                     res = IdealReservoir(nx_arg, case["pf"], case["pi"], None)
                 res.simulate(t)
@@ -176,6 +185,20 @@ def run_impl(case):
                     # (nx, pressure_fracface, pressure_initial, fluid, Sw_init) it must solve the same problem
                     from bluebonnet.flow import TwoPhaseReservoir
                     res = TwoPhaseReservoir(nx_arg, pf0, case["pi"], fp, case["two_phase_sw"])
+                elif case.get("override"):
+                    # a user subclass of SinglePhaseReservoir whose `alpha_scaled` is the scaled diffusivity of THIS case's table,
+                    # while the fluid object it is built with carries another diffusivity column (same pressures and
+                    # pseudopressures, hence the same scaling): matrix AND frac-face row must follow the override
+                    tb1 = dict(tb)
+                    pp_ = np.asarray(tb["pressure"], float)
+                    tb1["alpha"] = np.asarray(tb["alpha"], float) * (0.4 + 1.5 * (pp_ - pp_.min()) / (pp_.max() - pp_.min()))
+                    fp1 = cls(tb1, case["pi"])
+                    fp_law = fp
+
+                    class UserAlphaReservoir(SinglePhaseReservoir):
+                        def alpha_scaled(self, pseudopressure):
+                            return fp_law.alpha(pseudopressure) / fp_law.alpha(fp_law.m_i)
+                    res = UserAlphaReservoir(nx_arg, pf0, case["pi"], fp1)
                 else:
                     res = SinglePhaseReservoir(nx_arg, pf0, case["pi"], fp)
                 if case.get("sweep") and not case.get("reassign") and case.get("two_phase_sw") is None:
@@ -237,6 +260,11 @@ def threaded_equals_serial(cases, serial, report, rounds=2, workers=4):
     return n
 
 
+# the per-step residual is relative to max|b| of the step, but never to less than this fraction of the run's initial pseudopressure
+# (1e-250: only the subnormal range is excluded; until a5d74ea / 3794250 the solver had an absolute floor and the fraction was 0.01)
+RESID_FLOOR = 1e-250
+
+
 def resid_tol(case, impl, base=1e-9):
     """Tolerance for the per-step residual max|A x - b| / max(floor, max|b|) reported by the float model.
     base = rounding level for well-scaled steps; a backward-stable solve leaves a residual of a few eps * |A| |x|, which
@@ -250,14 +278,14 @@ def resid_tol(case, impl, base=1e-9):
     nx = case["nx"]
     if case["kind"] == "ideal":
         kmax = float(np.diff(t).max()) * float(max(nx - 1, 1)) ** 2
-        amp = 1.0 / 0.01     # floor = 0.01 x the initial scale
+        amp = 1.0
     else:
         fp = impl.get("fp")
         if fp is None:
             return base
         a = np.asarray(fp.pvt_props["alpha"], float)
         kmax = float(np.diff(t).max()) * float(nx) ** 2 * float(a.max() / fp.alpha(fp.m_i))
-        amp = 1.0 / 0.01
+        amp = 1.0
     return base + 50 * eps * (1 + 4 * kmax) * amp
 
 
@@ -287,7 +315,7 @@ def table_term(tb):
 
 
 HEADER = """From Coq Require Import List PrimFloat.
-From BBLib Require Import NumSig Tridiag Interp Reservoir FloatCmp.
+From BBLib Require Import NumSig Tridiag Interp Reservoir ReservoirUser FloatCmp.
 Import ListNotations.
 Open Scope float_scope.
 Set Printing Width 100000.
@@ -323,13 +351,21 @@ def emit_case(k, case, impl, with_resid=True, n_samples=48, rng=None):
     ijt = "[" + "; ".join(f"({i}, {j})%nat" for i, j in ij) + "]"
     vals = flist(field[i, j] for i, j in ij)
     fieldlit = "[" + "; ".join(flist(row) for row in field) + "]" if with_resid else "[]"
-    if case["kind"] == "ideal":
+    if case["kind"] == "ideal" and case.get("law"):
+        law = f"(fun m => {fl(case['law'][0])} + {fl(case['law'][1])} * m)"
+        lines.append(f"Definition case_{k} := let times := {t} in "
+                     f"let field := idu_simulate NumF {law} {nx}%nat {fl(nx)} times in "
+                     f"let rf := id_recovery NumF {fl(nx)} {fl(case['pf'])} {fl(case['pi'])} times field in "
+                     f"let impl_field := {fieldlit} in "
+                     f"[maxdiff (sample_field field {ijt}) {vals}; maxdiff rf {flist(impl['rf'])}; 0; 0; "
+                     f"lmax NumF 0 (idu_residuals NumF {fl(RESID_FLOOR)} {law} {fl(nx)} times impl_field); 0].")
+    elif case["kind"] == "ideal":
         lines.append(f"Definition case_{k} := let times := {t} in "
                      f"let field := id_simulate NumF {nx}%nat {fl(nx)} times in "
                      f"let rf := id_recovery NumF {fl(nx)} {fl(case['pf'])} {fl(case['pi'])} times field in "
                      f"let impl_field := {fieldlit} in "
                      f"[maxdiff (sample_field field {ijt}) {vals}; maxdiff rf {flist(impl['rf'])}; 0; 0; "
-                     f"lmax NumF 0 (id_residuals NumF {fl(0.01)} {fl(nx)} times impl_field); 0].")
+                     f"lmax NumF 0 (id_residuals NumF {fl(RESID_FLOOR)} {fl(nx)} times impl_field); 0].")
     else:
         sched = case.get("sched")
         pf = flist(sched if sched is not None else [case["pf"]] * len(case["times"]))
@@ -343,7 +379,7 @@ def emit_case(k, case, impl, with_resid=True, n_samples=48, rng=None):
             f"maxdiff (sp_recovery NumF fp {fl(nx)} false times field) {flist(impl['rf'])}; "
             f"maxdiff (sp_recovery NumF fp {fl(nx)} true times field) {flist(impl['rfd'])}; "
             f"fabsdiff (fp_m_i fp) {fl(impl['m_i'])}; "
-            f"lmax NumF 0 (sp_residuals NumF {fl(0.01)} fp {fl(nx)} times pf impl_field); 0] end end.")
+            f"lmax NumF 0 (sp_residuals NumF {fl(RESID_FLOOR)} fp {fl(nx)} times pf impl_field); 0] end end.")
     lines.append(f"Eval vm_compute in case_{k}.")
     return "\n".join(lines)
 
@@ -443,6 +479,9 @@ def gen_cases(rng, n, quick=True, kinds=("single", "ideal"), nx_choices=None, nt
                 cases[-1]["nx_type"] = nx_type
             if k % 7 in (2, 6):
                 cases[-1]["reassign"] = True
+            elif k % 6 in (1, 3) and k % 12 != 1:
+                # a user subclass with its own diffusivity law alpha(m) = a0 + a1 m (falling or rising with depletion)
+                cases[-1]["law"] = [0.25, 0.75] if k % 12 == 3 else [1.6, -0.9]
             continue
         tk = TABLE_KINDS[k // 2 % len(TABLE_KINDS)]
         tb = make_table(tk, rng, quick)
@@ -462,6 +501,11 @@ def gen_cases(rng, n, quick=True, kinds=("single", "ideal"), nx_choices=None, nt
             case["sweep"] = True
         if k % 8 in (2, 6) and k % 16 != 2:
             case["reverse_rows"] = True
+        if k % 10 == 6 and not (case.get("reassign") or case.get("two_phase_sw") is not None or case.get("sweep") or case.get("reverse_rows")):
+            # user subclass overriding alpha_scaled (see run_impl): the case's table carries the law as a user-supplied diffusivity
+            # column, the fluid object handed to the constructor another one
+            case["table"] = dict(tb, alpha=1.0 / (np.asarray(tb["compressibility"], float) * np.asarray(tb["viscosity"], float)))
+            case["override"] = True
         if rng.random() < sched_prob:
             style = rng.choice(["stepdown", "random", "constant", "shut-in"])
             if style == "shut-in":
